@@ -3,6 +3,7 @@ package check
 
 import (
 	"luahelper-lsp/langserver/check/common"
+	"luahelper-lsp/langserver/check/results"
 	"strings"
 )
 
@@ -142,4 +143,37 @@ func VerifRun_C12() {
 		c12check(p, r, files[0], srcs[0], oi, 1)
 	}
 	verifReach("done")
+}
+
+// VpC12Query is one identifier position of a single analysed file, in protocol coordinates, with the
+// known-defect class of the unchanged tree its name falls in (for the handler-level job C12-e).
+type VpC12Query struct {
+	Name                    string
+	Line, Col, Start, Width int
+	Local                   bool // bound to a local declaration by Lua's scoping
+	Class                   string
+}
+
+func VpC12Queries(f *results.FileStruct) []VpC12Query {
+	r := rbBind([]*results.FileStruct{f})
+	var out []VpC12Query
+	for oi := range r.occs {
+		o := &r.occs[oi]
+		if vpSkipName(o.name) || o.loc.StartLine == 0 {
+			continue
+		}
+		class := ""
+		if c06tainted(r, o.name) {
+			class = "C12-inherits-C05"
+		} else if o.decl < 0 && r.globalMixedDepth(o.name) {
+			class = "C12-global-mixed-depth"
+		} else if r.isColonReceiver(o.name) {
+			class = "C12-self-receiver"
+		}
+		for _, col := range []int{o.loc.StartColumn, o.loc.EndColumn} {
+			out = append(out, VpC12Query{Name: o.name, Line: o.loc.StartLine - 1, Col: col, Start: o.loc.StartColumn,
+				Width: o.loc.EndColumn - o.loc.StartColumn, Local: o.decl >= 0, Class: class})
+		}
+	}
+	return out
 }
